@@ -91,6 +91,10 @@ def run(ctx):
             # of the back end (explicit tables and the auto-detecting cascade)
             if cfg in ("K1", "K2"):
                 common.borrow_rules(rep, lambda: c11.check_pairs(cfg, crate, rep, {}), "C11.", "C14.keys")
+                # .. and the public-key loader recovers "the same bytes" (re-serialised from the algorithm it recognised)
+                # only if it recognises the complete AlgorithmIdentifier, curve included
+                if "key_pair::SubjectPublicKeyInfo::from_der" in crate.bodies:
+                    common.borrow_rules(rep, lambda: c11.check_spki(cfg, crate, rep), "C11.", "C14.spki")
         n = 0
         for fn, (label, src, via) in SITES.items():
             if fn not in crate.bodies:
